@@ -102,12 +102,12 @@ type RunResult struct {
 	EventHash  string              `json:"event_hash"`
 
 	// filled by the driver
-	spec     RunSpec
-	exit     int
-	stderr   string
-	hang     bool
-	crashed  bool
-	wallMs   int64
+	spec    RunSpec
+	exit    int
+	stderr  string
+	hang    bool
+	crashed bool
+	wallMs  int64
 }
 
 // ---- build ----
